@@ -39,6 +39,9 @@ def make_stream():
             self.i += 1
             if i < len(self.script):
                 return self.script[i]
+            if i > len(self.script) + 1000000:
+                # a sampler that never returns must not hang the check
+                raise RuntimeError("draw does not return")
             # beyond the lattice point (first attempt rejected): a benign
             # answer lets every loop terminate; the draw is discarded because
             # the consumption count exceeds k
@@ -256,6 +259,8 @@ def sampler_worker(task):
             x = d.draw()
         except Exception:  # noqa   (C14 covers raising draws)
             raised += 1
+            if raised > 50 and raised > 0.5 * total:
+                break           # a sampler that (almost) never returns
             continue
         if st.i != k or x != x:
             continue                      # first attempt rejected: discard
@@ -268,6 +273,10 @@ def sampler_worker(task):
                 second.append(y)
     out = dict(name=name, k=k, N=N, lattice=total, accepted=len(vals),
                raised=raised, bad=[])
+    if raised > 50 and raised > 0.5 * total:
+        out["bad"].append(("sampler-raises-or-does-not-return", name, raised,
+                           total))
+        return out
     if len(vals) < 0.05 * total:
         out["bad"].append(("sampler-accepts-almost-nothing", name, len(vals),
                            total))
